@@ -1,5 +1,6 @@
 import Rtcm.Lemmas.ReaderItems
 import Rtcm.Lemmas.Message
+import Rtcm.Lemmas.SockFile
 import Rtcm.Gen.Tables
 /-
   C02 — no valid frame is lost, duplicated or reordered on well-formed mixed input.
@@ -62,6 +63,14 @@ theorem C02_no_frame_lost (o : Opts) (items : List SItem) (hv : ∀ it ∈ items
     ∧ (run fileOps T2 o true (fs (streamOf items))).getLast? = some .stop := by
   rw [run_items T2 C02_reader_consts o items hv]
   exact ⟨frames_expect T2 o items, by simp [expect]⟩
+
+/-- the same over a socket: however the network segments the well-formed stream and whatever the
+    buffer size, every deliverable frame is returned exactly once, in order -/
+theorem C02_no_frame_lost_over_socket (dec : Bytes → Bytes) (o : Opts) (items : List SItem)
+    (hv : ∀ it ∈ items, it.Valid T2) (s : Sock) (hs : SockOK s) (hrem : s.remaining = streamOf items) :
+    frames (run (sockOps dec) T2 o true s) = deliverable T2 o items := by
+  rw [reader_sock_eq_file dec T2 o true s hs, hrem]
+  exact (C02_no_frame_lost o items hv).1
 
 /-- a frame whose payload the constructor accepts is deliverable: in particular every payload of at
     least two bytes with an unknown message number (stub), up to the maximum 1023-byte payload -/
